@@ -37,6 +37,7 @@ from happysimulator.components.microservice.sidecar import Sidecar
 from happysimulator.components.queue import Queue
 from happysimulator.components.queue_driver import QueueDriver
 from happysimulator.components.queue_policy import FIFOQueue, LIFOQueue, PriorityQueue
+from happysimulator.components import queue_policies as QP
 from happysimulator.components.queued_resource import QueuedResource
 from happysimulator.components.random_router import RandomRouter
 from happysimulator.components.rate_limiter.distributed import DistributedRateLimiter
@@ -116,13 +117,36 @@ def policy_of(spec):
         return FIFOQueue(capacity=fcap)
     if t == "lifo":
         return LIFOQueue(capacity=fcap)
+    idx = lambda e: (e.context.get("metadata") or {}).get("i", 0)  # noqa: E731
     if t == "prio":
-        return PriorityQueue(capacity=fcap, key=lambda e: (e.context.get("metadata") or {}).get("i", 0) % 3)
+        return PriorityQueue(capacity=fcap, key=lambda e: idx(e) % 3)
+    clock = spec.get("_clock")           # injected by policy_for(z, spec): the simulated clock, never the wall clock
+    if t == "deadline":
+        from happysimulator.core.temporal import Instant as _I
+        return QP.DeadlineQueue(get_deadline=lambda e: _I(e.time.nanoseconds + (idx(e) % 4) * 5_000_000), capacity=cap, clock_func=clock)
+    if t == "codel":
+        return QP.CoDelQueue(target_delay=0.005, interval=0.05, capacity=cap, clock_func=clock)
+    if t == "alifo":
+        return QP.AdaptiveLIFO(congestion_threshold=2, capacity=cap)
+    if t == "red":
+        return QP.REDQueue(min_threshold=1, max_threshold=4, max_probability=0.5, capacity=None if cap is None else max(int(cap), 4))
+    if t == "fair":
+        return QP.FairQueue(get_flow_id=lambda e: f"f{idx(e) % 2}", per_flow_capacity=cap)
+    if t == "wfq":
+        return QP.WeightedFairQueue(get_flow_id=lambda e: f"f{idx(e) % 2}", get_weight=lambda f: 1 + (f == "f1"), capacity=cap)
     raise InvalidScenario("policy")
 
 
+def policy_for(z, spec):
+    """policy_of with the simulated clock for the time-aware policies (CoDel, Deadline)."""
+    if spec is None:
+        return None
+    return policy_of(dict(spec, _clock=lambda: z.now))
+
+
 def gen_policy(rng):
-    return {"type": rng.choice(["fifo", "fifo", "lifo", "prio"]), "cap": rng.choice([None, None, 1, 2, 5])}
+    return {"type": rng.choice(["fifo", "fifo", "lifo", "prio", "deadline", "codel", "alifo", "red", "fair", "wfq"]),
+            "cap": rng.choice([None, None, 1, 2, 5])}
 
 
 def retry_of(spec):
@@ -172,7 +196,7 @@ def _queue():
     def build(z, c):
         sink = z.sink()
         worker = z.svc("worker", c["svc"], forward=sink, capacity=int(c["cap"]))
-        q = Queue(name="q", egress=None, policy=policy_of(c["policy"]))
+        q = Queue(name="q", egress=None, policy=policy_for(z, c["policy"]))
         d = QueueDriver(name="qd", queue=q, target=worker)
         q.egress = d
         z.add(q, d)
@@ -235,18 +259,31 @@ def _server():
     def gen(rng):
         c = flow_cfg(rng)
         st = lat(rng, hi=0.1)
-        c.update(conc={"type": rng.choice(["fixed", "fixed", "dynamic", "weighted"]), "n": rng.randint(1, 3)},
-                 st=st, qcap=rng.choice([None, 0, 1, 3]), policy=rng.choice([None, gen_policy(rng)]))
+        c.update(conc={"type": rng.choice(["fixed", "dynamic", "weighted", "weighted"]), "n": rng.randint(1, 5)},
+                 st=st, qcap=rng.choice([None, 0, 1, 3]), policy=rng.choice([None, gen_policy(rng)]),
+                 weights=[rng.randint(1, 3) for _ in range(5)], relimit=[rng.randint(1, 6) for _ in range(3)])
         c["arr"], c["tags"] = arrivals(rng, len(c["arr"]), 1.0, [st])
         return c
 
     def build(z, c):
         sink = z.sink()
-        pol = policy_of(c["policy"]) if c.get("policy") else None
-        s = Server("server", concurrency=conc_of(c["conc"]), service_time=ConstantLatency(check_num(c["st"])),
+        pol = policy_for(z, c.get("policy"))
+        model = conc_of(c["conc"])
+        s = Server("server", concurrency=model, service_time=ConstantLatency(check_num(c["st"])),
                    queue_policy=pol, queue_capacity=c.get("qcap"), downstream=sink)
         z.add(s)
-        feed(z, c, s, ctx_fn=lambda i: {"metadata": {"i": i, "weight": 1}})
+        cap = int(c["conc"].get("n", 1))
+        ws = [int(w) for w in c.get("weights") or [1]]
+        if any(w < 1 or w > 8 for w in ws):
+            raise InvalidScenario("weights")
+        # mixed request weights (never more than the whole pool): a heavy request can meet a partly used pool
+        feed(z, c, s, ctx_fn=lambda i: {"metadata": {"i": i, "weight": min(ws[i % len(ws)], cap) if c["conc"]["type"] == "weighted" else 1}})
+        if c["conc"]["type"] == "dynamic" and c.get("relimit"):
+            act = z.actor("operator")
+            arr = check_arr(c["arr"])
+            for k, lim in enumerate(c["relimit"]):
+                at = arr[(k + 1) * len(arr) // (len(c["relimit"]) + 1)] if arr else 0
+                z.run_at(at, act, lambda lim=lim: (z.touch(s), model.set_limit(max(1, min(int(lim), cap + 2))), None)[2])
         z.horizon_ns = horizon(c, 5 + c["st"] * (len(c["arr"]) + 2))
     return gen, build
 
@@ -255,11 +292,13 @@ def _server():
 def _threadpool():
     def gen(rng):
         c = flow_cfg(rng)
-        c.update(workers=rng.randint(1, 3), qcap=rng.choice([None, 1, 4]), pts=svc_times(rng), dflt=lat(rng, hi=0.05))
+        c.update(workers=rng.randint(1, 3), qcap=rng.choice([None, 1, 4]), pts=svc_times(rng), dflt=lat(rng, hi=0.05),
+                 policy=rng.choice([None, None, gen_policy(rng)]))
         return c
 
     def build(z, c):
         tp = z.add(ThreadPool("tp", num_workers=int(c["workers"]), queue_capacity=c.get("qcap"),
+                              queue_policy=policy_for(z, c.get("policy")),
                               default_processing_time=check_num(c["dflt"])))
         pts = [check_num(x) for x in c["pts"]]
 
@@ -351,6 +390,14 @@ def _client():
         rp = gen_retry(rng)
         c = flow_cfg(rng, marks=[to] + retry_marks(rp))
         c.update(timeout=to, retry=rp, svc=svc_times(rng, slow=to), real_server=rng.random() < 0.4)
+        if rng.random() < 0.3:
+            # retry storm: every request times out (backend slower than the timeout), retried with ZERO back-off, so
+            # many retry events are stamped "now + 0" at decimal timeout instants (4.1 s, 0.1*k s ...)
+            to = rng.choice([0.1, 0.1 * rng.randint(2, 9), 0.01, 0.07, 0.57, lat(rng, zero_p=0.0, hi=0.3)])
+            c.update(timeout=to, retry={"type": "fixed", "max": rng.randint(2, 4), "delay": 0.0}, real_server=False,
+                     svc=[round(to * rng.choice([1.5, 2.0, 4.0]), 6) for _ in range(3)])
+            c["arr"], c["tags"] = arrivals(rng, rng.randint(12, 36), rng.choice([0.5, 2.0, 4.0]), [to, 0.1, 1.0])
+            c["tags"] = c["tags"] + ["retry_storm"]
         return c
 
     def build(z, c):
@@ -436,7 +483,7 @@ def _lb():
         c = flow_cfg(rng, marks=[interval, hto])
         c.update(strategy=rng.choice(LB_STRATS), nb=rng.randint(1, 4), svc=svc_times(rng, slow=hto),
                  interval=interval, hto=hto, hth=rng.randint(1, 2), uth=rng.randint(1, 3), hc=rng.random() < 0.7,
-                 real=rng.random() < 0.3)
+                 real=rng.random() < 0.3, on_none=rng.choice(["reject", "queue"]))
         return c
 
     def build(z, c):
@@ -451,7 +498,7 @@ def _lb():
                                              service_time=ConstantLatency(check_num(max(c["svc"]))))))
             else:
                 backends.append(z.svc(f"be{i}", times))
-        lb = z.add(LoadBalancer("lb", backends=backends, strategy=strat_of(c["strategy"])))
+        lb = z.add(LoadBalancer("lb", backends=backends, strategy=strat_of(c["strategy"]), on_no_backend=c.get("on_none", "reject")))
         feed(z, c, lb, ctx_fn=lambda i: {"metadata": {"i": i, "client_ip": f"10.0.0.{i % 5}", "key": f"k{i % 7}"}})
         if c["hc"]:
             hc = z.add(HealthChecker("hc", load_balancer=lb, interval=check_num(c["interval"], 1e-6),
@@ -760,6 +807,10 @@ def _sidecar():
         c = flow_cfg(rng, marks=[rto, cto, rbd])
         c.update(rto=rto, cto=cto, retries=rng.randint(0, 3), rbd=rbd, cft=rng.randint(1, 3), cst=rng.randint(1, 2),
                  svc=svc_times(rng, slow=rto), rl=rng.choice([None, gen_rl_policy(rng)]))
+        if rng.random() < 0.3:       # every request times out and is retried with zero base delay
+            c.update(rbd=0.0, retries=rng.randint(1, 3), rl=None, cft=50,
+                     svc=[round(rto * rng.choice([1.5, 3.0]), 6) for _ in range(3)])
+            c["tags"] = c["tags"] + ["retry_storm"]
         return c
 
     def build(z, c):
@@ -900,7 +951,7 @@ def _inspect():
     def build(z, c):
         ok, bad = z.sink("pass"), z.sink("fail")
         st = z.add(InspectionStation("inspect", pass_target=ok, fail_target=bad, inspection_time=check_num(c["it"]),
-                                     pass_rate=c["rate"], policy=policy_of(c["policy"]) if c.get("policy") else None))
+                                     pass_rate=c["rate"], policy=policy_for(z, c.get("policy"))))
         feed(z, c, st)
         z.horizon_ns = horizon(c, 3 + c["it"] * (len(c["arr"]) + 2))
     return gen, build
@@ -996,7 +1047,7 @@ def _reneging():
         sink, ren = z.sink(), z.sink("reneged")
         r = z.add(_RenegingServer("reneging", check_num(c["st"]), sink, reneged_target=ren,
                                   default_patience_s=check_num(c["patience"]),
-                                  policy=policy_of(c["policy"]) if c.get("policy") else None))
+                                  policy=policy_for(z, c.get("policy"))))
         z.touch("RenegingQueuedResource")
         feed(z, c, r, ctx_fn=lambda i: ({"metadata": {"i": i}, "patience_s": 0.01} if i % 4 == 0 else {"metadata": {"i": i}}))
         z.horizon_ns = horizon(c, 3 + c["st"] * (len(c["arr"]) + 2))
@@ -1023,7 +1074,7 @@ def _shifted():
         sched = ShiftSchedule([Shift(z.abs_s(check_num(a)), z.abs_s(check_num(b)), int(k)) for a, b, k in c["shifts"]],
                               default_capacity=int(c["dcap"]))
         s = z.add(ShiftedServer("shifted", schedule=sched, service_time=check_num(c["st"]), downstream=sink,
-                                policy=policy_of(c["policy"]) if c.get("policy") else None))
+                                policy=policy_for(z, c.get("policy"))))
         feed(z, c, s)
         z.horizon_ns = max(horizon(c, 2), ns(max(b for _, b, _ in c["shifts"]) + 1))
     return gen, build
